@@ -168,6 +168,10 @@ func pristineOnce(api API, c *Call, a, b, patchText []byte, mapPolicy int, budge
 	w := simrt.NewWorld(simrt.Config{PoolPolicy: simrt.PoolFresh, MapPolicy: mapPolicy, Sched: simrt.SchedNone})
 	simrt.Install(w)
 	defer simrt.Uninstall()
+	// "run alone" means alone in the process too: package-level state (caches, memo tables,
+	// anything an edit may add) is put back to its initial value, so the oracle's answer is a
+	// function of the call descriptor and not of what this worker happened to run before
+	api.Reset()
 	PristineEvals++
 	cp := func(x []byte) []byte {
 		if x == nil {
